@@ -23,6 +23,13 @@ CONFIGS = [
 ]
 
 
+# global options of every kind in every script (they meet the flags taken
+# from the environment in one command line)
+HEADER = ("global_options(['-DGLOBAL_C=1'], lang='c')\n"
+          "global_link_options(['-Wl,--as-needed', '-Lglobaldir'])\n"
+          "global_link_options(['--verif-static-flag'], mode='static')")
+
+
 def steps_of(r, goals):
     """run every goal; -> {output/id: record}"""
     recs = {}
@@ -99,7 +106,7 @@ def compare(arg):
     events = []
     try:
         for b in ('make', 'ninja'):
-            r = sg.Runner(decls, b)
+            r = sg.Runner(decls, b, HEADER)
             r.p.args = list(cargs)
             runs[b] = r
             c = r.configure_with(cenv)
